@@ -221,7 +221,7 @@ pub fn c05_input(data: &[u8]) -> Option<<c05::C05 as Prop>::Input> {
         ops.push(c05::Op::Push(cur));
     }
     let m: Vec<u8> = data[3..].iter().take((data[2] % 24) as usize).copied().collect();
-    Some(c05::Input { ops, cap, m, enc_cap: small_cap(data[2]) })
+    Some(c05::Input { ops, cap, m, enc_cap: small_cap(data[2]), alloc_fail: None })
 }
 
 pub fn c05(data: &[u8]) {
